@@ -355,7 +355,7 @@ def run(ctx):
     ctx.note_space("a sink registering another sink from inside its own startTestRun / stopTestRun: 2 x fallback on/off "
                    "x one or two runs", n)
     ctx.notes["random_cases"] = True
-    segs = ["0", "1", "a", "00", "0a"]
+    segs = ["0", "1", "a", "00", "0a", "h%3A", "{0}"]      # (a route code is any text: URL-quoted names, braces)
     for i in range(ctx.scale(40000, 2000000)):
         if ctx.out_of_time():
             break
